@@ -3,6 +3,7 @@ package main
 import (
 	"fmt"
 	"go/ast"
+	"go/constant"
 	"go/printer"
 	"go/token"
 	"go/types"
@@ -70,6 +71,12 @@ func proj(t string, i, n int) string {
 func (c *fnCtx) callStmt(ind int, x *ast.CallExpr) []string {
 	fn, recv := c.callee(x)
 	if fn == nil || fn.Pkg() != c.u.p.pkg {
+		if id, ok := unparen(x.Fun).(*ast.Ident); ok && id.Name == "copy" && len(x.Args) == 2 {
+			if _, isb := c.info.Uses[id].(*types.Builtin); isb {
+				c.copyStmt(ind, x)
+				return nil
+			}
+		}
 		if id, ok := unparen(x.Fun).(*ast.Ident); ok && id.Name == "panic" {
 			if _, isb := c.info.Uses[id].(*types.Builtin); isb {
 				c.part()
@@ -101,6 +108,58 @@ func (c *fnCtx) callStmt(ind int, x *ast.CallExpr) []string {
 		res = append(res, proj(r, len(fi.mutPtrs)+k, n))
 	}
 	return res
+}
+
+// copyStmt: `copy(dst, src)` with its result discarded. dst is an assignable slice-valued operand (`p`, `p[i]`) or a slice
+// `p[lo:hi]` of one; the elements written are elements of p, so p must be a slice the pointee of a pointer parameter owns
+// (checked by assignTo → ownedSlice). src is evaluated first, as it is before the call (Go's copy is a memmove).
+func (c *fnCtx) copyStmt(ind int, x *ast.CallExpr) {
+	dst, src := unparen(x.Args[0]), x.Args[1]
+	if _, ok := c.info.TypeOf(src).Underlying().(*types.Slice); !ok {
+		c.fail(x, "copy from a value of type %s", c.info.TypeOf(src))
+	}
+	t := c.tmpName("src")
+	c.emit(ind, fmt.Sprintf("let %s := %s", t, c.expr(src)))
+	if se, ok := dst.(*ast.SliceExpr); ok {
+		if se.Slice3 {
+			c.fail(x, "3-index slice expression")
+		}
+		if _, ok := c.info.TypeOf(se.X).Underlying().(*types.Slice); !ok {
+			c.fail(x, "copy into a slice of a value of type %s", c.info.TypeOf(se.X))
+		}
+		base := c.expr(se.X)
+		lo, hi := "0", "("+base+").length"
+		if se.Low != nil {
+			lo = c.natOf(se.Low)
+		}
+		if se.High != nil {
+			hi = c.natOf(se.High)
+		}
+		c.part()
+		c.writeElems(ind, se.X, fmt.Sprintf("(← Go.copySlice %s %s %s %s)", base, lo, hi, t))
+		return
+	}
+	if _, ok := c.info.TypeOf(dst).Underlying().(*types.Slice); !ok {
+		c.fail(x, "copy into a value of type %s", c.info.TypeOf(dst))
+	}
+	c.writeElems(ind, dst, fmt.Sprintf("(Go.copyInto %s %s)", c.expr(dst), t))
+}
+
+// writeElems: the elements of the slice-valued operand p are overwritten (p keeps its length): allowed where an element
+// assignment `p[i] = v` is allowed
+func (c *fnCtx) writeElems(ind int, p ast.Expr, val string) {
+	switch q := unparen(p).(type) {
+	case *ast.Ident:
+		// a slice variable (parameter or local) may share its elements with another slice: value semantics would be wrong
+		c.fail(p, "copy into the slice variable %s (its elements may be shared with another slice)", q.Name)
+	case *ast.IndexExpr:
+		// an element (itself a slice) of a slice: the outer slice must be owned; assignTo checks it
+	default:
+		if why := c.ownedSlice(p); why != "" {
+			c.fail(p, "copy into %s: %s", exprText(c.u.l.fset, p), why)
+		}
+	}
+	c.assignTo(ind, p, val, false, true)
 }
 
 // assignTo: lhs = val. define: `:=` (new variables are declared). internal: write-back through a pointer parameter.
@@ -200,6 +259,17 @@ var opOfAssign = map[token.Token]token.Token{
 }
 
 func (c *fnCtx) stmt(ind int, s ast.Stmt) {
+	// hidden tails ("Capacity"): a tail names what lies beyond the length of a slice operand NOW. Any statement that can
+	// change a variable ends the life of every tail (an `if` keeps the tails its condition introduced for both branches)
+	switch st := s.(type) {
+	case *ast.IfStmt:
+		defer func() { c.tails = nil }()
+	case *ast.ReturnStmt, *ast.EmptyStmt, *ast.BranchStmt:
+	case *ast.BlockStmt:
+		_ = st
+	default:
+		defer func() { c.tails = nil }()
+	}
 	switch s := s.(type) {
 	case *ast.EmptyStmt:
 	case *ast.BlockStmt:
@@ -270,14 +340,26 @@ func (c *fnCtx) stmt(ind int, s ast.Stmt) {
 			c.stmt(ind, s.Init)
 		}
 		c.emit(ind, "if "+c.expr(s.Cond)+" then")
+		tails := map[string]string{}
+		for k, v := range c.tails {
+			tails[k] = v
+		}
+		restore := func() {
+			c.tails = map[string]string{}
+			for k, v := range tails {
+				c.tails[k] = v
+			}
+		}
 		c.stmts(ind+1, s.Body.List)
 		switch e := s.Else.(type) {
 		case nil:
 		case *ast.BlockStmt:
 			c.emit(ind, "else")
+			restore()
 			c.stmts(ind+1, e.List)
 		case *ast.IfStmt:
 			c.emit(ind, "else")
+			restore()
 			c.stmts(ind+1, []ast.Stmt{e})
 		default:
 			c.fail(s, "else branch %T", e)
@@ -373,6 +455,28 @@ func (c *fnCtx) assign(ind int, s *ast.AssignStmt) {
 			}
 		}
 		if len(s.Lhs) == 1 {
+			if !define {
+				if se, ok := unparen(s.Rhs[0]).(*ast.SliceExpr); ok && !se.Slice3 && se.Low == nil && se.High != nil &&
+					exprText(c.u.l.fset, unparen(se.X)) == exprText(c.u.l.fset, unparen(s.Lhs[0])) {
+					if _, isSl := c.info.TypeOf(se.X).Underlying().(*types.Slice); isSl {
+						if cv := c.info.Types[se.High].Value; cv == nil || cv.ExactString() != "0" {
+							// x = x[:n]: the re-slice in place, the one form that may go beyond the length (up to the capacity)
+							tail := c.tailFor(se.X)
+							n := c.natOf(se.High)
+							c.part()
+							c.assignTo(ind, s.Lhs[0], fmt.Sprintf("(← Go.reslice %s %s %s)", c.expr(se.X), n, tail), false, false)
+							return
+						}
+					}
+				}
+				c.checkNoSharing(s)
+				if id, ok := unparen(s.Rhs[0]).(*ast.Ident); ok && id.Name == "nil" && c.info.Uses[id] == types.Universe.Lookup("nil") {
+					if _, isSl := c.info.TypeOf(s.Lhs[0]).Underlying().(*types.Slice); isSl {
+						c.assignTo(ind, s.Lhs[0], "[]", false, false) // a nil slice is the empty slice (len 0; nothing distinguishes them in the subset)
+						return
+					}
+				}
+			}
 			c.assignTo(ind, s.Lhs[0], c.rhsValue(ind, s.Rhs[0]), define, false)
 			return
 		}
@@ -702,6 +806,7 @@ func (c *fnCtx) forStmt(ind int, s *ast.ForStmt) {
 		bad("condition does not compare the loop variable (on the left)")
 	}
 	up := false
+	step := uint64(1)
 	switch p := s.Post.(type) {
 	case *ast.IncDecStmt:
 		pid, ok := unparen(p.X).(*ast.Ident)
@@ -709,8 +814,31 @@ func (c *fnCtx) forStmt(ind int, s *ast.ForStmt) {
 			bad("post statement does not step the loop variable")
 		}
 		up = p.Tok == token.INC
+	case *ast.AssignStmt:
+		// `i += k` with constants a (start) and k ≥ 1 such that (max of the type − a) is a multiple of k: the values a, a+k, …
+		// never pass the maximum of the type without hitting it, and at the maximum `i < b` is false for every b, so the
+		// Go loop cannot wrap around. Only with `<`. (decoder/raw.go: `for i := uint16(0); i < nFields*3; i += 3`.)
+		pid, ok := unparen(p.Lhs[0]).(*ast.Ident)
+		if p.Tok != token.ADD_ASSIGN || len(p.Lhs) != 1 || len(p.Rhs) != 1 || !ok || c.info.Uses[pid] != obj {
+			bad("post statement is not i++ / i-- / i += k")
+		}
+		kv, av := c.info.Types[p.Rhs[0]].Value, c.info.Types[init.Rhs[0]].Value
+		if kv == nil || av == nil || cond.Op != token.LSS {
+			bad("a step `i += k` needs a constant start, a constant step and the comparison `<`")
+		}
+		k, okk := constant.Uint64Val(constant.ToInt(kv))
+		a0, oka := constant.Uint64Val(constant.ToInt(av))
+		max := ^uint64(0) >> (64 - uint(w))
+		if signed {
+			max >>= 1
+		}
+		if !okk || !oka || k == 0 || a0 > max || (max-a0)%k != 0 {
+			bad("with this start and step the loop variable could pass the maximum of its type (the loop could wrap around)")
+		}
+		step = k
+		up = true
 	default:
-		bad("post statement is not i++ / i--")
+		bad("post statement is not i++ / i-- / i += k")
 	}
 	asg := assignedRoots(c.info, s.Body)
 	if asg[obj] {
@@ -751,6 +879,8 @@ func (c *fnCtx) forStmt(ind int, s *ast.ForStmt) {
 	g := map[bool]string{true: "Go.downI", false: "Go.downN"}[signed]
 	one := map[bool]string{true: "(1 : Int)", false: "1"}[signed]
 	switch {
+	case up && cond.Op == token.LSS && step != 1:
+		c.emit(ind, fmt.Sprintf("for %s in %s %s %s %d do", name, map[bool]string{true: "Go.stepI", false: "Go.stepN"}[signed], a, b, step))
 	case up && cond.Op == token.LSS:
 		c.emit(ind, fmt.Sprintf("for %s in %s %s %s do", name, f, a, b))
 	case up && cond.Op == token.LEQ:
@@ -820,6 +950,20 @@ func (c *fnCtx) ownedSlice(e ast.Expr) string {
 					return
 				}
 			}
+			if id, ok := unparen(x.Fun).(*ast.Ident); ok && id.Name == "copy" && len(x.Args) == 2 {
+				if _, isb := c.info.Uses[id].(*types.Builtin); isb {
+					// copy(dst, src) keeps no reference to its operands: the slice and slices of it may be passed
+					for _, a := range x.Args {
+						if se, ok := unparen(a).(*ast.SliceExpr); ok && is(se.X) {
+							visit(se.Low, inSelfAssign)
+							visit(se.High, inSelfAssign)
+						} else if !is(a) {
+							visit(a, inSelfAssign)
+						}
+					}
+					return
+				}
+			}
 		case ast.Expr:
 			if is(x) {
 				if !inSelfAssign {
@@ -841,6 +985,53 @@ func (c *fnCtx) ownedSlice(e ast.Expr) string {
 		visit(c.scope, false)
 	}
 	return bad
+}
+
+// checkNoSharing: `l.items[i] = item` would make the structure share the backing array of a slice somebody else holds;
+// value semantics would no longer be what the code does. A slice stored into (a field path / an element of a field path
+// of) the pointee of a pointer parameter must be new: nil, a literal, make(…), a call, or an append to / a slice of the
+// operand itself.
+func (c *fnCtx) checkNoSharing(s *ast.AssignStmt) {
+	lhs, rhs := unparen(s.Lhs[0]), unparen(s.Rhs[0])
+	if _, ok := c.info.TypeOf(lhs).Underlying().(*types.Slice); !ok {
+		return
+	}
+	if _, isId := lhs.(*ast.Ident); isId {
+		return
+	}
+	root := rootIdent(lhs)
+	if root == nil || !c.ptrs[c.info.Uses[root]] {
+		return
+	}
+	self := exprText(c.u.l.fset, lhs)
+	var fresh func(e ast.Expr) bool
+	fresh = func(e ast.Expr) bool {
+		switch x := unparen(e).(type) {
+		case *ast.Ident:
+			return x.Name == "nil"
+		case *ast.CompositeLit:
+			return true
+		case *ast.SliceExpr:
+			return exprText(c.u.l.fset, unparen(x.X)) == self || fresh(x.X)
+		case *ast.CallExpr:
+			if id, ok := unparen(x.Fun).(*ast.Ident); ok {
+				if _, isb := c.info.Uses[id].(*types.Builtin); isb {
+					switch id.Name {
+					case "make":
+						return true
+					case "append":
+						return len(x.Args) > 0 && (exprText(c.u.l.fset, unparen(x.Args[0])) == self || fresh(x.Args[0]))
+					}
+					return false
+				}
+			}
+			return true // a function of the package: translated, and subject to the same rule
+		}
+		return exprText(c.u.l.fset, unparen(e)) == self
+	}
+	if !fresh(rhs) {
+		c.fail(s, "%s = %s stores a slice that something else may hold (shared backing array): outside the subset", self, exprText(c.u.l.fset, rhs))
+	}
 }
 
 // defineAlias: `p := &s[i]` — p stands for the element s[i] for the rest of the enclosing statement list. Sound when, as long
